@@ -865,6 +865,49 @@ func Run(r *fw.Run) {
 			}
 		}
 	})
+	// module paths spelled like the directive keywords (the path "require" inside a require block, ...): every
+	// layout of two such requirements x requests that keep, flip, move and drop them, both setters
+	{
+		l := fw.NewLocal()
+		kw := []string{"require", "exclude", "module", "replace", "retract", "go"}
+		var ksd []string
+		for _, k := range kw {
+			for _, gov := range []string{"1.20", "1.21"} {
+				h := "module example.com/m\n\ngo " + gov + "\n\n"
+				ksd = append(ksd,
+					h+"require (\n\t"+k+" v1.0.0\n\ta.com/x v1.0.0 // indirect\n)\n",
+					h+"require (\n\t"+k+" v1.0.0 // indirect\n\ta.com/x v1.0.0 // indirect\n)\n",
+					h+"require "+k+" v1.0.0\n\nrequire a.com/x v1.0.0 // indirect\n",
+					h+"require (\n\t"+k+" v1.0.0\n\tb.com/y v1.0.0\n)\n\nrequire (\n\ta.com/x v1.0.0 // indirect\n)\n",
+					h+"require (\n\t// c\n\t"+k+" v1.0.0 // s1\n)\n")
+			}
+		}
+		r.Bounds["keyword_path_seeds"] = len(ksd)
+		for _, sd := range ksd {
+			k := strings.Fields(strings.SplitN(sd, "require", 2)[1])[0]
+			if k == "(" {
+				k = strings.Fields(strings.SplitN(sd, "(\n\t", 2)[1])[0]
+				if k == "//" {
+					k = strings.Fields(strings.SplitN(sd, "// c\n\t", 2)[1])[0]
+				}
+			}
+			for _, rq := range []string{k + "@v1.0.0", k + "@v1.0.0!", k + "@v1.7.0!,a.com/x@v1.0.0", k + "@v1.0.0,a.com/x@v1.0.0!,b.com/y@v1.0.0", "a.com/x@v1.0.0", "", k + "@v1.7.0,b.com/y@v1.0.0!"} {
+				for _, setter := range []string{"SetRequire", "SetRequireSeparateIndirect"} {
+					c := caseT{Seed: sd, Setter: setter, Request: rq}
+					l.States++
+					l.Transitions++
+					l.Execs++
+					if msg, _ := runCase(c); msg != "" && !strings.HasPrefix(msg, knownExcludeClass) {
+						l.Outcomes[setter+":VIOLATION"]++
+						r.Violation(c.key(), msg, c)
+					} else {
+						l.Nontrivial++
+					}
+				}
+			}
+		}
+		r.Merge(l)
+	}
 	r.Sample(caseT{Seed: sds[len(sds)/2], Setter: "SetRequireSeparateIndirect", Request: reqs[37]})
 	// go.work
 	ws := workSeeds(3)
